@@ -48,13 +48,19 @@ OPEN_STATEMENTS = [
     'rotate_qubit_by_pauli_sound is proved for exact (c, s) with c^2 + s^2 = 1 in the exact regime of the four sums '
     '(ExactAdd); not proved: that numpy.cos / numpy.sin deliver such a pair (floats: Spec oracle at 1e-9) and the case '
     'where a partial sum is pruned by the 1e-8 tolerance',
-    'freeze_orbitals_sound (whole operators, several distinct frozen orbitals, prune=False) is proved at the live '
-    'tolerance against Spec.applyOp .fermion under the per-run exact-regime flag (every `tmp_operator +=` of every pass '
-    'exact; counted as exact-regime(freeze):True/False); not proved: prune=True (the order-preserving relabelling of '
-    'prune_unused_indices preserves the matrix elements: exact embedded-matrix-element oracle only), repeated frozen '
-    'indices, and runs whose flag is False',
-    'scbk_sector: no theorem besides remove_indices_order_preserving; end-to-end sector spectra checked numerically '
-    '(n = 4; 6 in thorough), edit_hamiltonian_for_spin / remove_indices by correspondence',
+    'freeze_orbitals_sound (whole operators, several distinct frozen orbitals) is proved at the live tolerance against '
+    'Spec.applyOp .fermion for prune=False and prune=True (the latter in the form the oracle evaluates: Spec.C16.embed S '
+    'occupied with S the increasing list of used modes; prune_unused_indices_sound separately) under the per-run '
+    'exact-regime flag (every `tmp_operator +=` of every pass exact; counted as exact-regime(freeze):True/False); not '
+    'proved: repeated frozen indices and runs whose flag is False',
+    'scbk_sector_sound is proved at the Model level: the reduction of symmetry_conserving_bravyi_kitaev '
+    '(edit_hamiltonian_for_spin at the last and the middle qubit with the parities of N mod 4, remove_indices) has the '
+    'matrix elements of the Bravyi-Kitaev-tree Hamiltonian between the basis states with the two removed qubits fixed '
+    'by N mod 4, for operators that carry only I/Z on those qubits (counted: hypothesis(I/Z on the removed qubits)) in the '
+    'exact regime of the two compress calls (counted: exact-regime(scbk)); checked exactly by the embedded-matrix-element '
+    'oracle; not proved: that bravyi_kitaev_tree of a number- and spin-conserving operator satisfies the hypothesis and '
+    'that the fixed sector is the (N, S_z) parity sector (end-to-end sector spectra checked numerically, n = 4; 6 in '
+    'thorough)',
 ]
 
 PAULI = {1: 'X', 2: 'Y', 3: 'Z'}
@@ -867,11 +873,16 @@ def stream_scbk(ctx):
         items.append((n, H, ne, jbk))
         reqs.append({'op': 'c16.scbk_reduce', 'A': jbk, 'n': n, 'fermions': ne})
     ans = ctx.driver.run(reqs)
-    for (n, H, ne, jbk), m in zip(items, ans):
+    flags = ctx.driver.run([dict(r, op='c16.scbk_exact') for r in reqs])
+    for (n, H, ne, jbk), m, flag in zip(items, ans, flags):
         jH = enc_op('fermion', H.terms)
         case = {'f': 'symmetry_conserving_bravyi_kitaev', 'H': jH, 'active_orbitals': n, 'active_fermions': ne}
         st.case(case)
         st.count('n=%d,N=%d' % (n, ne))
+        st.count('exact-regime(scbk):%s' % flag)
+        removed = [n // 2 - 1, n - 1]
+        zonly = all(a == 3 for t, _ in jbk for i, a in t if i in removed)
+        st.count('hypothesis(I/Z on the removed qubits):%s' % zonly)
         try:
             out = of.transforms.symmetry_conserving_bravyi_kitaev(H, n, ne)
         except Exception as e:
@@ -883,6 +894,17 @@ def stream_scbk(ctx):
         if of.count_qubits(out) > n - 2:
             st.violate('symmetry_conserving_bravyi_kitaev result acts on more than n-2 qubits', case, {'result': jout})
             continue
+        # the statement of scbk_sector_sound: matrix elements in the sector fixed by N mod 4
+        ones = ([n // 2 - 1] if ne % 4 in (1, 2) else []) + ([n - 1] if ne % 4 in (1, 3) else [])
+
+        def cbs(a, case=case, jout=jout):
+            st.count('oracle:sector-matrix-elements')
+            if not a['eq']:
+                st.violate('symmetry_conserving_bravyi_kitaev does not reproduce the matrix elements of the '
+                           'Bravyi-Kitaev-tree Hamiltonian in the sector fixed by N mod 4', case,
+                           {'result': jout, 'witness': a})
+        orc.ask({'op': 'c16.spec_embed_eq', 'alg': 'qubit', 'm': n - 2, 'A': jbk, 'B': jout,
+                 'modeMap': [q for q in range(n) if q not in removed], 'ones': ones}, cbs)
         got = {}
 
         def fin(got=got, case=case, n=n, ne=ne):
